@@ -42,6 +42,10 @@ def register(COMPONENTS, g):
         return comp_generic("effects", tier, seed, NPROC, ["-spok", os.path.join(BUILD, "spok")], "effects", 900 if tier == "quick" else 3000)
     COMPONENTS["effects"] = comp_effects
 
+    def comp_load(tier, seed):
+        return comp_generic("load", tier, seed, NPROC, [], "load", 900 if tier == "quick" else 3000)
+    COMPONENTS["load"] = comp_load
+
     def comp_cst(tier, seed):
         return comp_generic("cst", tier, seed, NPROC, ["-spok", os.path.join(BUILD, "spok")], "cst", 900 if tier == "quick" else 3000)
     COMPONENTS["cst"] = comp_cst
@@ -222,3 +226,31 @@ def register_props(PROPS, g):
         if _p in PROPS:
             PROPS[_p].setdefault("extra", [])
             PROPS[_p]["extra"] = list(PROPS[_p]["extra"]) + [("syntax-census", syntax_census)]
+    # the "load" component (parser -> file.New / task.New): which field of a task each property leans on
+    def load_relevant(pid):
+        fields = {"C03": {0, 2}, "C05": {3, 4}, "C12": {6, 7, 8}, "C13": {5}}[pid]
+        def rel(m):
+            diff, case, impl, model = m
+            a, b = impl.split(" ## "), model.split(" ## ")
+            if len(a) != len(b):
+                return True                      # loads / does not load, or another number of tasks
+            if a[0] != b[0]:
+                return pid == "C13"              # the variables
+            for x, y in zip(a[1:], b[1:]):
+                fx, fy = x.split("|"), y.split("|")
+                if len(fx) != len(fy):
+                    return True
+                if any(fx[k] != fy[k] for k in fields if k < len(fx)):
+                    return True
+            return False
+        return rel
+    for _p in ("C03", "C05", "C12", "C13"):
+        PROPS[_p]["components"] = list(PROPS[_p]["components"]) + ["load"]
+        rel = PROPS[_p].get("relevant")
+        if not isinstance(rel, dict):
+            rel = {} if rel is None else {c: rel for c in PROPS[_p]["components"] if c != "load"}
+        rel["load"] = load_relevant(_p)
+        PROPS[_p]["relevant"] = rel
+        PROPS[_p]["rule"] = PROPS[_p].get("rule", "") + ("; load: random spokfiles (variables by literal, join, exec, re-assigned, defined after their use; tasks whose dependencies and outputs mix "
+                                                        "task names, names shared with variables, plain paths, paths with ? [ { characters, patterns, substring-related patterns) through parser -> file.New, "
+                                                        "every task's fields compared with the model and with a reference of the harness")
